@@ -343,10 +343,44 @@ def _range_validators(ctx, chk, rule):
     chk.floor(rule + ".ranges", n, 1, "range validators")
 
 
+def _documented_defaults(ctx, chk, rule):
+    """docs/settings.rst says "``NAME``: ... defaults to ``VALUE``": the shipped default table agrees (the documentation is the
+    only statement inside the repository of what the defaults are meant to be)"""
+    import re as _re
+    from ..core.data import module_literal
+    try:
+        doc = ctx.repo.text("docs/settings.rst")
+    except Exception:
+        chk.note("docs/settings.rst not present: documented defaults not compared")
+        return
+    dflt = module_literal(ctx.repo, "dateparser_data/settings.py", "settings")
+    n = 0
+    for para in doc.split("\n\n"):
+        m = _re.match(r"\s*``([A-Z_]+)``:(.*)", para, _re.S)
+        if not m:
+            continue
+        name, rest = m.group(1), m.group(2)
+        mv = _re.search(r"defaults to ``([^`]+)``", rest)
+        if not mv or name not in dflt:
+            continue
+        txt = mv.group(1)
+        try:
+            want = ast.literal_eval(txt)
+        except Exception:
+            want = txt
+        n += 1
+        have = dflt[name]
+        chk.ob(rule, "default of %s is the documented %r" % (name, want), have == want,
+               "dateparser_data/settings.py has %r, docs/settings.rst says %r" % (have, want),
+               key={"table": "settings defaults", "setting": name}, file="dateparser_data/settings.py", function="settings", line=None)
+    chk.floor(rule + ".defaults", n, 6, "settings whose default the documentation states")
+
+
 def r3(ctx, chk):
     rule = "C02.R3"
     ix = ctx.ix
     _range_validators(ctx, chk, rule)
+    _documented_defaults(ctx, chk, rule)
     # parsers: dispatch dict keys == validated names >= defaults
     init = ix.func("dateparser.date:_DateLocaleParser.__init__")
     disp = None
